@@ -154,6 +154,9 @@ func (s *serviceImpl) Remove(objectID uint32) error {
 	s.Lock()
 	if obj, ok := s.objects[objectID]; ok {
 		delete(s.objects, objectID)
+		// forget the mailbox: later messages are answered with
+		// ErrObjectNotFound instead of reaching the removed object.
+		delete(s.boxes, objectID)
 		s.Unlock()
 		obj.OnTerminate()
 		return nil
